@@ -14,6 +14,7 @@
 #include <stdlib.h>
 #include <string.h>
 #include <stdint.h>
+#include <unistd.h>
 #include "lib/lha_decoder.h"
 
 #define MAXINNER (1 << 20)
@@ -25,7 +26,11 @@ static int log_data;   /* argv[2] == "data": New events of real decoders carry t
 
 static void rec_inner(const uint8_t *b, size_t n)
 {
-	if (ninner >= MAXINNER) { fprintf(stderr, "too many inner calls\n"); exit(3); }
+	if (ninner >= MAXINNER) {
+		/* the front end keeps calling the algorithm (more than a million times within one read): not a failure of the driver but an
+		   observation - an event no action of the trace specs matches */
+		printf("\n{\"e\":\"Runaway\",\"inner_calls\":%d}\n", ninner); fflush(stdout); _exit(0);
+	}
 	if (innerlen + n > innercap) { innercap = (innerlen + n) * 2 + 4096; innerbuf = realloc(innerbuf, innercap); }
 	memcpy(innerbuf + innerlen, b, n);
 	inner[ninner].off = innerlen; inner[ninner].n = n; ninner++; innerlen += n;
